@@ -47,6 +47,7 @@ Mon0 == [ np     |-> 0,       \* probes created so far
           gt     |-> <<>>,    \* virtual time of every timeline entry
           ht     |-> <<>>,    \* handle -> virtual time of the subscription
           pat    |-> <<>>,    \* probe -> virtual time of each of its notifications
+          t9     |-> [init |-> FALSE],   \* C09: state of the timed reference automaton of the (single) subscription
           runT   |-> <<>>,    \* virtual times at which the executor ran to idle ("runall")
           g      |-> <<>>,    \* global timeline <<a, t, v>> of the notifications sent into the hot inputs
           unsubd |-> <<>>,    \* handle -> unsubscribe() has returned (or it was torn down by its composite)
@@ -190,6 +191,61 @@ C07Check(m, o, C) ==
                 ELSE IF op = "delay" /\ ~anyorder THEN at[i] >= srcT(i) + d
                 ELSE TRUE
 
+(* --- C09: rate limiting.  Timed reference automata of debounce / throttle / buffer_with_time /          *)
+(* buffer_with_count_and_time for a subscription `subject(1).op(..)`, under the harness executor: tasks   *)
+(* are polled only by "runall" (all unfinished tasks in creation order until idle); the delay timer of a   *)
+(* one-shot task is armed when the task is first polled, the period timer of the buffers when the task is *)
+(* built.  T9Step returns the new automaton state and the notifications documented for this stimulus.     *)
+RateOps == {"debounce", "throttle", "buffer_time", "buffer_count_time"}
+T9Init(x, now) == [init |-> TRUE, op |-> Op(x), a |-> PA(x), b |-> PB(x), pend |-> NoneV, tk |-> "none", dl |-> 0, d |-> 0,
+                   buf |-> <<>>, fur |-> now + (IF Op(x) = "buffer_time" THEN PA(x) ELSE PB(x)), done |-> FALSE, out |-> <<>>]
+Out9(z, t, v) == [z EXCEPT !.out = Append(@, <<t, v>>)]
+RECURSIVE T9Run(_, _)
+(* one sweep of the executor at time now, repeated until nothing is runnable *)
+T9Run(z, now) ==
+  IF z.op \in {"debounce", "throttle"} THEN
+    IF z.tk = "new" THEN T9Run([z EXCEPT !.tk = "armed", !.dl = now + z.d], now)
+    ELSE IF z.tk = "armed" /\ now >= z.dl THEN
+      (IF IsSome(z.pend) /\ ~z.done THEN Out9([z EXCEPT !.tk = "none", !.pend = NoneV], "N", Unwrap(z.pend))
+       ELSE [z EXCEPT !.tk = "none", !.pend = NoneV])
+    ELSE z
+  ELSE (* the buffers: one tick per period *)
+    IF ~z.done /\ now >= z.fur THEN
+      LET z1 == IF z.buf # <<>> THEN Out9([z EXCEPT !.buf = <<>>], "N", L(z.buf)) ELSE z IN
+      T9Run([z1 EXCEPT !.fur = now + (IF z.op = "buffer_time" THEN z.a ELSE z.b)], now)
+    ELSE z
+
+(* completion: what is pending is released, then the completion *)
+T9Complete(z) ==
+  IF z.op \in {"debounce", "throttle"}
+  THEN Out9((IF IsSome(z.pend) THEN Out9([z EXCEPT !.pend = NoneV, !.tk = IF z.op = "throttle" THEN "none" ELSE z.tk], "N", Unwrap(z.pend))
+             ELSE [z EXCEPT !.tk = IF z.op = "throttle" THEN "none" ELSE z.tk]), "C", U)
+  ELSE Out9((IF z.buf # <<>> THEN Out9([z EXCEPT !.buf = <<>>], "N", L(z.buf)) ELSE z), "C", U)
+
+T9Step(z0, s, now) ==
+  LET z == [z0 EXCEPT !.out = <<>>] IN
+  IF s.k = "runall" THEN T9Run(z, now)
+  ELSE IF s.k # "emit" \/ z.done THEN z
+  ELSE IF s.t = "E" THEN Out9([z EXCEPT !.done = TRUE], "E", s.v)
+  ELSE IF s.t = "C" THEN [T9Complete(z) EXCEPT !.done = TRUE]
+  ELSE
+  CASE z.op = "debounce" ->
+         IF s.t = "N" THEN [z EXCEPT !.pend = SomeV(s.v), !.tk = "new", !.d = z.a]        \* the previous task is cancelled
+         ELSE Out9((IF IsSome(z.pend) THEN Out9([z EXCEPT !.pend = NoneV], "N", Unwrap(z.pend)) ELSE z), "C", U)
+    [] z.op = "throttle" ->     \* a = window (0: by selector), b = edge: 1 leading, 2 trailing, 3 both
+         IF s.t = "N" THEN
+           IF z.tk = "none"     \* no window open: this item opens one
+           THEN LET z1 == [z EXCEPT !.tk = "new", !.d = IF z.a > 0 THEN z.a ELSE (W(s.v) % 2) + 1] IN
+                IF z.b \in {1, 3} THEN Out9(z1, "N", s.v)          \* leading edge: the opener is emitted now, not again later
+                ELSE [z1 EXCEPT !.pend = SomeV(s.v)]
+           ELSE IF z.b \in {2, 3} THEN [z EXCEPT !.pend = SomeV(s.v)] ELSE z
+         ELSE Out9((IF IsSome(z.pend) THEN Out9([z EXCEPT !.pend = NoneV, !.tk = "none"], "N", Unwrap(z.pend)) ELSE [z EXCEPT !.tk = "none"]), "C", U)
+    [] OTHER ->                 \* buffers; buffer_count_time: a = count
+         IF s.t = "N" THEN
+           LET b1 == Append(z.buf, s.v) IN
+           IF z.op = "buffer_count_time" /\ Len(b1) >= z.a THEN Out9([z EXCEPT !.buf = <<>>], "N", L(b1)) ELSE [z EXCEPT !.buf = b1]
+         ELSE Out9((IF z.buf # <<>> THEN Out9([z EXCEPT !.buf = <<>>], "N", L(z.buf)) ELSE z), "C", U)
+
 (* --- C08: time and async sources emit exactly what and when they promise --- *)
 TimeSources == {"interval", "timer", "from_future", "from_stream"}
 C08Check(m, o) ==
@@ -326,7 +382,15 @@ MonStep(m0, step, C) ==
       r9 == Flag(r8, "F13" \notin KF /\ s.k \in {"emit", "emitc"} /\ o.fault = "" /\ allLeft
                      /\ o.cnt[CntTap] > m.lastcnt[CntTap], "C11", checks)
       r10 == Flag(r9, "C07" \in checks /\ o.fault = "" /\ ~C07Check([r9 EXCEPT !.gt = Pad(@, Len(r9.g), m.now)], o, C), "C07", checks)
-      r11 == Flag(r10, "C08" \in checks /\ o.fault = "" /\ ~C08Check(r10, o), "C08", checks)
+      (* C09: the rate-limiting operator delivers exactly what its timed reference says, when it says *)
+      is9 == "C09" \in checks /\ r10.nh >= 1 /\ r10.hroot[1] > 0 /\ Op(r10.hroot[1]) \in RateOps
+      z9 == IF ~is9 THEN m.t9
+            ELSE LET zz == IF m.t9.init THEN m.t9 ELSE T9Init(r10.hroot[1], r10.ht[1]) IN
+                 IF GetI(r10.hend, 1) > 0 THEN [zz EXCEPT !.out = <<>>] ELSE T9Step(zz, s, r10.now)
+      got9 == [i \in 1..Len(o.log) |-> <<o.log[i].t, o.log[i].v>>]
+      r10b == [Flag(r10, is9 /\ o.fault = "" /\ GetI(m.hend, 1) = 0 /\ s.k # "unsub"
+                         /\ (got9 # z9.out \/ \E i \in 1..Len(o.log) : o.log[i].at # r10.now), "C09", checks) EXCEPT !.t9 = z9]
+      r11 == Flag(r10b, "C08" \in checks /\ o.fault = "" /\ ~C08Check(r10, o), "C08", checks)
   IN [r11 EXCEPT !.lastcnt = o.cnt, !.gt = Pad(@, Len(r11.g), m.now)]
 
 RECURSIVE MonRun(_, _, _)
